@@ -1,0 +1,16 @@
+//go:build verif
+
+package utils
+
+// VerifYield, when set (verification builds only), is called at the points of
+// timer.go where another goroutine's call may interleave with the timer's own
+// goroutine: between receiving a tick and acting on it, and between stopping the
+// runtime timer and signalling / re-arming.  The verification harness uses these
+// as yield points at which it injects a concurrent Stop / Refresh.
+var VerifYield func(point string)
+
+func verifYield(point string) {
+	if f := VerifYield; f != nil {
+		f(point)
+	}
+}
